@@ -756,6 +756,83 @@ fn pool_case(r: &mut Rng) -> (String, Option<String>, String) {
     (term, bad, format!("nres={} ops={:?}", nres, ops))
 }
 
+/// the header widget over --header lines and reserved items with tabs / wide characters
+fn header_case(r: &mut Rng) -> (String, Option<String>, String) {
+    use skv::canvas::Rec;
+    use tuikit::draw::Draw;
+    use unicode_width::UnicodeWidthChar;
+    const AL: [char; 10] = ['a', 'b', 'X', ' ', '-', '中', '字', 'é', 'q', '_'];
+    let mut text = |r: &mut Rng, maxlen: usize| -> String {
+        let n = r.below(maxlen as u64 + 1) as usize;
+        (0..n).map(|_| if r.chance(1, 14) { '\t' } else { *r.pick(&AL) }).collect()
+    };
+    let width = match r.below(10) { 0 => 1 + r.below(2) as usize, _ => 3 + r.below(30) as usize };
+    let height = r.below(7) as usize;
+    let reverse = r.chance(1, 2);
+    let tab = *r.pick(&[1usize, 2, 4, 8]);
+    let nres = r.below(4) as usize;
+    let fixed: Vec<String> = (0..r.below(3)).map(|_| { let mut t = text(r, width + 6); if t.trim_end().is_empty() { t = "h".to_string(); } t.trim_end().to_string() }).collect();
+    let n_items = r.below(6) as usize;
+    let items: Vec<String> = (0..n_items).map(|_| text(r, width + 6)).collect();
+    let pool = Arc::new(defer_drop::DeferDrop::new(V::ItemPool::new().lines_to_reserve(nres)));
+    // chunked appends
+    let mut i = 0;
+    while i < items.len() {
+        let k = 1 + r.below(3) as usize;
+        let chunk: Vec<Arc<dyn SkimItem>> = items[i..(i + k).min(items.len())].iter().map(|t| Arc::new(t.clone()) as Arc<dyn SkimItem>).collect();
+        pool.append(chunk);
+        i += k;
+    }
+    let reserved: Vec<String> = items.iter().take(nres).cloned().collect();
+    let hdr_joined = fixed.join("\n");
+    let ts = tab.to_string();
+    let options = SkimOptionsBuilder::default()
+        .header(if fixed.is_empty() { None } else { Some(&hdr_joined) })
+        .tabstop(Some(&ts))
+        .layout(if reverse { "reverse" } else { "default" })
+        .build()
+        .unwrap();
+    let header = V::Header::empty().with_options(&options).item_pool(pool.clone());
+    let mut cv = Rec::new(width, height);
+    let drew = header.draw(&mut cv).is_ok();
+    let hattr = V::DEFAULT_THEME.header();
+    let mut bad: Option<String> = None;
+    let rows: Option<Vec<(usize, Vec<(usize, char, u64)>)>> = if !drew { None } else {
+        let mut rows: Vec<(usize, Vec<(usize, char, u64)>)> = Vec::new();
+        // one group per header line, in drawing order (a line may put no cell at all)
+        let body: Vec<(usize, usize, char, tuikit::attr::Attr)> = cv.all.iter().skip(width * height).cloned().collect();
+        let n_lines = fixed.len() + reserved.len();
+        for idx in 0..n_lines {
+            let row = if reverse { idx } else { height - idx - 1 };
+            rows.push((row, body.iter().filter(|c| c.0 == row).map(|c| (c.1, c.2, if c.3 == hattr { 7 } else { 9 })).collect()));
+        }
+        if body.iter().any(|c| !rows.iter().any(|r| r.0 == c.0)) { bad = Some("a cell was put on a row that holds no header line".to_string()); }
+        Some(rows)
+    };
+    // oracle: reserved item k is on row fixed+k, shown as a prefix of its text inside the area
+    if let Some(rows) = &rows {
+        for (k, t) in reserved.iter().enumerate() {
+            let (row, cs) = &rows[fixed.len() + k];
+            let want_row = if reverse { fixed.len() + k } else { height - (fixed.len() + k) - 1 };
+            if *row != want_row { bad = Some(format!("header line {} on row {}, expected {}", k, row, want_row)); }
+            let mut exp: Vec<(usize, char)> = Vec::new();
+            let mut pos = 0usize;
+            for ch in t.chars() {
+                if ch == '\t' { let n = tab - pos % tab; for j in 0..n { exp.push((2 + pos + j, ' ')); } pos += n; } else { exp.push((2 + pos, ch)); pos += ch.width().unwrap_or(2); }
+            }
+            let got: Vec<(usize, char)> = cs.iter().map(|c| (c.0, c.1)).collect();
+            if got.len() > exp.len() || got[..] != exp[..got.len()] { bad = Some(format!("header line {:?} drawn as {:?}: not a prefix of its text", t, got)); }
+            if cs.iter().any(|c| c.0 < 2 || c.0 >= width) { bad = Some(format!("header line {:?}: cell outside columns 2..{}", t, width)); }
+        }
+    } else if width >= 3 && height >= fixed.len() + reserved.len() { bad = Some("the header refused to draw although it fits".to_string()); }
+    let mut chars: std::collections::BTreeSet<char> = [' '].iter().cloned().collect();
+    for t in fixed.iter().chain(reserved.iter()) { for c in t.chars() { chars.insert(c); } }
+    let widths = coq::list(chars.iter().map(|c| coq::pair(coq::n(*c as u64), format!("{}", c.width().unwrap_or(2)))));
+    let rows_coq = coq::opt(rows.as_ref().map(|rows| coq::list(rows.iter().map(|(row, cs)| coq::pair(row.to_string(), coq::list(cs.iter().map(|(col, ch, tg)| coq::pair(col.to_string(), coq::pair(coq::n(*ch as u64), coq::n(*tg))))))))));
+    let term = format!("(KHeader {} {} {} {} {} {} {} {})", width, height, tab, coq::b(reverse), coq::list(fixed.iter().map(|t| coq::text(t))), coq::list(reserved.iter().map(|t| coq::text(t))), widths, rows_coq);
+    (term, bad, format!("header w={} h={} reverse={} tab={} nres={} fixed={:?} items={:?}", width, height, reverse, tab, nres, fixed, items))
+}
+
 /// SpinLock: K threads increment a non-atomic counter J times each under the lock
 fn spin_case(r: &mut Rng) -> Option<String> {
     let k = 2 + r.below(7) as usize;
@@ -806,6 +883,12 @@ fn run_case(seed: u64, id: u64, focus: &str, spec: Option<&String>, out: &mut Ve
         out.push(format!("{}\tdist\tkind=pool", id));
         out.push(format!("{}\tdistinct\t{}", id, esc(&input)));
         if let Some(b) = bad { out.push(format!("{}\tfail\t{}\t{}", id, esc(&b), esc(&input))); }
+        if focus == "C15" {
+            let (term, bad, input) = header_case(&mut r);
+            out.push(format!("{}\tcase\t{}", id, esc(&term)));
+            out.push(format!("{}\tdist\tkind=header", id));
+            if let Some(b) = bad { out.push(format!("{}\tfail\t{}\t{}", id, esc(&b), esc(&input))); }
+        }
         if focus == "C15" && id % 8 == 0 {
             if let Some(b) = spin_case(&mut r) { out.push(format!("{}\tfail\t{}\tspinlock stress", id, esc(&b))); }
             out.push(format!("{}\tdist\tkind=spinlock-stress", id));
